@@ -73,9 +73,13 @@ def run(chk, replay=None):
     chk.assumptions += ["`distinct` (and any verb outside the tool's declared list) is outside the property's claim"]
 
 def compare(chk, cases, on, off, ron, roff, hashes):
+    import hashlib
     def P(name):
+        """the pseudonym as the property describes it, computed HERE (not asked of the tool): component by component, a leading '$' dropped,
+        <replacement>_<first 16 hex digits of SHA-256> - so that every occurrence of a name, whichever code path rewrote it, is held against one value"""
         if name not in hashes:
-            hashes[name] = unb64(run_harness([on.harness_req(), {"op": "hash", "s": b64(name)}])[1]['o']).decode()
+            rp = on.repl.decode('utf-8', 'replace')
+            hashes[name] = '.'.join(rp + '_' + hashlib.sha256(part.encode('utf-8')).hexdigest()[:16] for part in name.lstrip('$').split('.'))
         return hashes[name]
     for (l, info), (ion, mon), (ioff, moff) in zip(cases, ron, roff):
         chk.count(); chk.traces += 1
